@@ -1589,6 +1589,8 @@ class MPO(MPSGeometry):
         trunc_params = options.subconfig('trunc_params')
         if method == 'SVD':
             self.apply_naively(psi)
+            if not psi.finite:
+                psi.canonical_form()  # compress_svd needs the correct singular values on infinite bonds
             return psi.compress_svd(trunc_params)
         elif method == 'variational':
             from ..algorithms.mps_common import VariationalApplyMPO
